@@ -404,6 +404,13 @@ func runPath(it *Interp, ex *Explorer, ld *Loaded, initFn *ssa.Function, sh Shar
 						pr.Outcome = "infeasible"
 						return
 					}
+					if it.onDivSet && it.onDivLabel == "" {
+						return // the harness declared divergence not to be this property's subject
+					}
+					if it.onDivSet {
+						ex.violate("divergence", it.onDivLabel, it.onDivFinding, nil)
+						return
+					}
 					ex.violate("divergence", "divergence: "+r.why, "", nil)
 				}()
 			default:
